@@ -77,7 +77,13 @@ func c11History(k *fw.K, quick bool) {
 	if quick {
 		m.Steps = 2 + r.Intn(5)
 	}
-	m.Variant = []string{"plain", "vary-batch", "omit-reset", "extra-forward", "reuse-batch", "dead-relu", "exact-fit"}[r.Intn(7)]
+	m.Variant = []string{"plain", "vary-batch", "omit-reset", "extra-forward", "reuse-batch", "dead-relu", "exact-fit", "large-logits"}[r.Intn(8)]
+	if m.Variant == "large-logits" { // samples of ONE batch whose logits sit at opposite ends of the range Softmax is specified for (|x| <= 700)
+		m.Act, m.Loss = "softmax", []string{"ce", "mse"}[r.Intn(2)]
+		if m.B < 2 {
+			m.B = 2 + r.Intn(3)
+		}
+	}
 	if m.Variant == "exact-fit" { // dyadic data: some residuals are exactly 0 from the first step on
 		m.Act, m.Loss, m.B = "none", "mse", 1 // no activation: an exact 0 pre-activation would sit on Relu's non-differentiable point
 	}
@@ -91,6 +97,14 @@ func c11History(k *fw.K, quick bool) {
 	if m.Variant == "exact-fit" {
 		for i := range w0.Data {
 			w0.Data[i], b0.Data[i] = float64(r.Intn(9)-4)/4, float64(r.Intn(9)-4)/4
+		}
+	}
+	if m.Variant == "large-logits" {
+		for i := range w0.Data {
+			w0.Data[i], b0.Data[i] = 0.9+0.2*r.Float64(), r.Float64()*2-1
+			if r.Intn(2) == 0 {
+				w0.Data[i] = -w0.Data[i]
+			}
 		}
 	}
 	if m.Variant == "dead-relu" {
@@ -135,6 +149,16 @@ func c11History(k *fw.K, quick bool) {
 			k.Failf("%s", msg)
 		}
 	}()
+	if m.Variant == "plain" && r.Intn(4) == 0 {
+		// the bias starts as a tensor DERIVED from the weight (tied initialisation) and is then made a parameter of its own
+		// with ResetGradContext(true): from then on it is a fresh leaf, no gradient may flow from it into the weight
+		if ws := fc.Weights(); len(ws) == 2 && ws[0].Value != nil && ws[1].Value != nil {
+			d := (*ws[0].Value).Scale(-0.5)
+			d.ResetGradContext(true)
+			*ws[1].Value = d
+			k.Count("histories_with_a_bias_derived_from_the_weight_and_re_armed", 1)
+		}
+	}
 	var act interface {
 		Forward(...tensor.Tensor) (tensor.Tensor, error)
 	}
@@ -179,6 +203,17 @@ func c11History(k *fw.K, quick bool) {
 		x := RandT(r, []int{m.B, m.D}, -1, 1)
 		if m.Variant == "dead-relu" {
 			x = RandT(r, []int{m.B, m.D}, 0.1, 1)
+		}
+		if m.Variant == "large-logits" {
+			for b := 0; b < m.B; b++ {
+				sum := (300 + 300*r.Float64()) * []float64{1, -1}[(b+r.Intn(2))%2]
+				if b < 2 {
+					sum = []float64{550, -550}[b] // at least two samples more than 708 apart
+				}
+				for d := 0; d < m.D; d++ {
+					x.Data[b*m.D+d] = sum / float64(m.D)
+				}
+			}
 		}
 		ts := []int{m.B * m.O}
 		if m.Loss == "ce" {
